@@ -20,6 +20,13 @@ open ModVerif ModVerif.GoRt ModVerif.GoRtPrint ModVerif.Modfile
 open ModVerif.Generated.Print
 open ModVerif.Drv.GenPrint (G.pos G.com G.coms G.line G.lparen G.rparen G.expr G.file)
 
+/-- decidable equality on generated printer states, so that the non-vacuity examples of the tie theorems close by
+    kernel `decide` -/
+instance : DecidableEq printer := fun a b =>
+  if h : a.Buffer = b.Buffer ∧ a.comment = b.comment ∧ a.margin = b.margin then
+    isTrue (by cases a; cases b; simp_all)
+  else isFalse (by intro e; subst e; exact h ⟨rfl, rfl, rfl⟩)
+
 /-! ### the embedding of the printer state -/
 
 def emb (mp : Printer) : printer :=
